@@ -40,6 +40,10 @@ func daemonEngine(args []string) error {
 		return daemonFwd(r, c.n)
 	case "bind":
 		return daemonBind(r, c.n)
+	case "svc":
+		return daemonSvc(r, c.n)
+	case "act":
+		return daemonAct(r, c.n)
 	}
 	return fmt.Errorf("daemon: unknown mode %q", c.mode)
 }
